@@ -245,6 +245,90 @@ func execOpAPISharedAttrs(c *Case) (Observation, bool) {
 	return obs, true
 }
 
+// execOpAPIEditedAttrs: the caller builds its node once and edits the attribute OBJECTS in place between two uses (same
+// AttributeProto pointers, same backing arrays, same lengths, other numbers) - a tool that sweeps an axis or a coefficient does
+// that. A fresh operator is initialised and applied with the other numbers first, then the numbers of the case are written back
+// into the same objects and another fresh operator is initialised and applied: it is held to the outcome of the case. Whatever an
+// operator (or anything else) remembered about the attribute objects, the second operator is a function of what they hold now.
+func execOpAPIEditedAttrs(c *Case) (Observation, bool) {
+	ins, outs := ioNames(c)
+	node, err := mkNode(c.Op, c.Attrs, ins, outs)
+	if err != nil {
+		return Observation{Kind: "harness", Note: err.Error()}, false
+	}
+	type saved struct {
+		i    int64
+		f    float32
+		ints []int64
+		fls  []float32
+	}
+	keep := make([]saved, len(node.Attribute))
+	any := false
+	for k, a := range node.Attribute {
+		keep[k] = saved{i: a.I, f: a.F, ints: append([]int64{}, a.Ints...), fls: append([]float32{}, a.Floats...)}
+		switch a.Type {
+		case onnx.AttributeProto_INT:
+			if a.I == 0 {
+				a.I = 1
+			} else {
+				a.I = 0
+			}
+			any = true
+		case onnx.AttributeProto_FLOAT:
+			a.F += 1
+			any = true
+		case onnx.AttributeProto_INTS:
+			for i, v := range a.Ints {
+				if v == 0 {
+					a.Ints[i] = 1
+				} else {
+					a.Ints[i] = 0
+				}
+				any = true
+			}
+		case onnx.AttributeProto_FLOATS:
+			for i := range a.Floats {
+				a.Floats[i] += 1
+				any = true
+			}
+		}
+	}
+	if !any {
+		return Observation{}, false
+	}
+	apply := func() Observation {
+		inputs, err := mkInputs(c)
+		if err != nil {
+			return Observation{Kind: "harness", Note: err.Error()}
+		}
+		return guard(func() Observation {
+			op, err := opset13.GetOperator(c.Op)
+			if err != nil {
+				return observeErr(err)
+			}
+			if err := op.Init(node); err != nil {
+				return observeErr(err)
+			}
+			v, err := op.ValidateInputs(inputs)
+			if err != nil {
+				return observeErr(err)
+			}
+			res, err := op.Apply(v)
+			if err != nil {
+				return observeErr(err)
+			}
+			return valueObs(res)
+		})
+	}
+	_ = apply() // (with the other numbers: any outcome - they need not be a valid request)
+	for k, a := range node.Attribute {
+		a.I, a.F = keep[k].i, keep[k].f
+		copy(a.Ints, keep[k].ints)
+		copy(a.Floats, keep[k].fls)
+	}
+	return apply(), true
+}
+
 // cloneOperandsFor: the spare-capacity mode also uses cloned operands (unless two positions must be one object)
 func cloneOperandsFor(c *Case) bool { return len(c.Same) == 0 }
 
@@ -591,6 +675,9 @@ func execOpCase(c *Case) []ModeResult {
 				}
 				if o8, ok := execOpAPISharedAttrs(c); ok {
 					out = append(out, ModeResult{"api:attributes-in-one-array", Verdict(c, o8), o8.Short()})
+				}
+				if o10, ok := execOpAPIEditedAttrs(c); ok {
+					out = append(out, ModeResult{"api:attribute-objects-edited-in-place", Verdict(c, o10), o10.Short()})
 				}
 				if o7, ok := execOpAPIRefilled(c); ok {
 					out = append(out, ModeResult{"api:one-instance-buffers-refilled", Verdict(c, o7), o7.Short()})
